@@ -31,6 +31,7 @@ func init() {
 		},
 		Rules: []Rule{
 			{ID: "C04.W1", Doc: "no transport I/O or unclassified wait is reachable while holding a lock the cancel path can block on (transitively)", Run: c04w1},
+			{ID: "C04.W2", Doc: "the lock-order graph of blocking acquisitions in the connection packages is acyclic (no two sites take two locks in opposite orders)", Run: c04w2},
 			{ID: "C04.R2", Doc: "SendCancel acquires Stream.mu and Stream.write only through TryLock", Run: c04r2},
 			{ID: "C04.R3", Doc: "manageStream: cancel before waiting for the finished token; terminate the manager unless the stream finished / the soft cancel went through", Run: c04r3},
 			{ID: "C04.R4", Doc: "Manager.terminate closes transport and stream buffer in the first-wins branch; Stream.Cancel sets cancel, send=EOF, terminates unless finished", Run: c04r4},
@@ -296,7 +297,7 @@ func c04r3(c *an.Ctx) {
 		}
 		return ""
 	}
-	flow := &an.Flow{Fn: ms, Init: []string{""},
+	flow := &an.Flow{Fn: ms, Inline: an.InlineSamePackage(ms), Init: []string{""},
 		Step: func(st string, in ssa.Instruction) []string {
 			call, ok := in.(*ssa.Call)
 			if !ok {
@@ -702,4 +703,83 @@ func chanFieldOf(v ssa.Value) (string, bool) {
 		}
 	}
 	return an.Render(v, 3), false
+}
+
+// c04w2: classic lock-order check over lock classes. An edge L -> L' exists if some function blocks on
+// Lock(L') while L may be held (TryLock does not create an edge: it cannot wait). A cycle means two
+// goroutines can each hold one lock and wait for the other.
+func c04w2(c *an.Ctx) {
+	bs := blockingOf(c)
+	p := c.P
+	type edge struct {
+		from, to *types.Var
+		site     an.HeldEdge
+	}
+	adj := map[*types.Var]map[*types.Var]an.HeldEdge{}
+	n := 0
+	for _, e := range bs.edges {
+		if e.Op.Kind != "lock" || e.Op.Class == nil || e.Op.Class == e.Held {
+			continue
+		}
+		if adj[e.Held] == nil {
+			adj[e.Held] = map[*types.Var]an.HeldEdge{}
+		}
+		if _, ok := adj[e.Held][e.Op.Class]; !ok {
+			adj[e.Held][e.Op.Class] = e
+			n++
+		}
+	}
+	c.Floor("lock-order edges", 1, n)
+	// find cycles: for every edge a->b, is a reachable from b?
+	reach := func(from, to *types.Var) []*types.Var {
+		type item struct {
+			v    *types.Var
+			path []*types.Var
+		}
+		seen := map[*types.Var]bool{}
+		stack := []item{{from, []*types.Var{from}}}
+		for len(stack) > 0 {
+			it := stack[len(stack)-1]
+			stack = stack[:len(stack)-1]
+			if it.v == to {
+				return it.path
+			}
+			if seen[it.v] {
+				continue
+			}
+			seen[it.v] = true
+			for nx := range adj[it.v] {
+				stack = append(stack, item{nx, append(append([]*types.Var{}, it.path...), nx)})
+			}
+		}
+		return nil
+	}
+	var froms []*types.Var
+	for a := range adj {
+		froms = append(froms, a)
+	}
+	sort.Slice(froms, func(i, j int) bool { return p.FieldName(froms[i]) < p.FieldName(froms[j]) })
+	for _, a := range froms {
+		var tos []*types.Var
+		for b := range adj[a] {
+			tos = append(tos, b)
+		}
+		sort.Slice(tos, func(i, j int) bool { return p.FieldName(tos[i]) < p.FieldName(tos[j]) })
+		for _, b := range tos {
+			e := adj[a][b]
+			key := fmt.Sprintf("%s | Lock(%s) while holding %s is not part of a lock-order cycle", an.ShortFunc(e.In), p.FieldName(b), p.FieldName(a))
+			back := reach(b, a)
+			if back == nil {
+				c.Ok(key, c.At(e.Site), "")
+				continue
+			}
+			var names []string
+			for _, v := range back {
+				names = append(names, p.FieldName(v))
+			}
+			other := adj[back[len(back)-2]][a]
+			c.Bad(key, c.At(e.Site), fmt.Sprintf("lock-order cycle: this site waits for %s while holding %s, and %s waits for %s while holding %s (at %s): two goroutines can block each other forever, and every later operation that needs either lock (Cancel, HandlePacket) hangs with them; order: %s -> %s",
+				p.FieldName(b), p.FieldName(a), an.ShortFunc(other.In), p.FieldName(a), p.FieldName(back[len(back)-2]), c.At(other.Site), p.FieldName(a), strings.Join(names, " -> ")))
+		}
+	}
 }
